@@ -51,7 +51,23 @@ def array_models():
         rec = V.array(rows)
         rec.f['values'] = _Values(rows)
         return rec
-    return {XLT + 'Array': make}
+    def getitem(self_, key):
+        # DataFrame[label]: the column with that label (range arrays have the default labels 0, 1, ...), a Series that yields its values
+        rows = self_.f.get('rows')
+        if isinstance(key, bool) or not isinstance(key, int) or not isinstance(rows, list):
+            raise Unmodelled(f'Array[{key!r}]')
+        width = len(rows[0]) if rows else 0
+        if not 0 <= key < width:
+            raise ExcRaised(Ref('builtin:KeyError'))
+        return [r[key] for r in rows]
+
+    def iterate(self_):
+        # iterating a DataFrame yields its column labels
+        rows = self_.f.get('rows')
+        if not isinstance(rows, list):
+            raise Unmodelled('iteration over an Array without rows')
+        return list(range(len(rows[0]) if rows else 0))
+    return {XLT + 'Array': make, XLT + 'Array.__getitem__': getitem, XLT + 'Array.__iter__': iterate}
 
 
 class _Series(PyModel):
